@@ -75,6 +75,34 @@ CLAIMED = {
              'mutating std::fs call logged by the FS model targets the output or a temp target; verify leaves the output alone; clean '
              'creates nothing.',
         ref='DESIGN.md 5 (C10)', note='bounds in evidence; input selection / directory scanning is C11', technique='symbolic execution of rustc MIR over symbolic FS pre-states + SMT (z3, cvc5 cross-check), native replay'),
+    'C02': dict(
+        text='Bounded model checking of the real coordinator: Txtpp::run (Shell::new, resolve_inputs, execute_file/_directory, scan_dir, '
+             'DepManager, Progress, Drop) is executed from MIR under a scheduler model in which ThreadPool::execute queues the real worker '
+             'closure and Receiver::try_recv forks over which in-flight task completes next; for every DAG within the bound, every input '
+             'selection and every completion order a file is finalised only after all its dependencies, and on success every required '
+             'file is final exactly once. `preprocess` is abstracted by a lemma that is itself decided on the real code (first pass '
+             'reports exactly the .txtpp-backed targets, runs nothing after the first, final pass never reports).',
+        ref='DESIGN.md 5 (C02), 3.3 scheduler model',
+        note='worker bodies atomic w.r.t. the coordinator; graph / schedule variables are environment fork points (every value feasible, '
+             'no solver query needed to split on them), the solver decides the byte-level lemma; bounds <=3 files quick / 4 thorough',
+        technique='symbolic execution of rustc MIR with a scheduler model (task completion order, dependency digraph and failures as fork points of the environment), native replay with forced timing'),
+    'C03': dict(
+        text='Same harness with arbitrary digraphs, duplicate/aliased/directory inputs and Clean mode: the coordinator loop exits on every '
+             'path (polling an empty channel with nothing in flight is reported as hang), no result stays unread, exactly one first pass '
+             'and at most one final pass per file, nothing unrequested is processed.',
+        ref='DESIGN.md 5 (C03)', note='as C02', technique='symbolic execution of rustc MIR with a scheduler model (task completion order, dependency digraph and failures as fork points of the environment), native replay with forced timing'),
+    'C04': dict(
+        text='(a) coordinator under the scheduler model with failing tasks at any graph position and completion order => run returns Err; '
+             '(b) real `preprocess` in all modes with the FS/process models in fault mode (any single std::fs / io call may return Err, '
+             'commands may exit non-zero): a fault or prescribed error surfaces as Err, and Ok implies output and temp file complete and '
+             'equal to the reference semantics; verify on tampered outputs fails.',
+        ref='DESIGN.md 5 (C04)', note='faults are Err returns at the std API, replayed natively with /dev/full where the OS can produce them; '
+             'main.rs Err => ExitCode::FAILURE is covered by C17 cli harness', technique='symbolic execution of rustc MIR with fault-injecting FS/process models and scheduler model + SMT (z3, cvc5), native replay'),
+    'C05': dict(
+        text='Same coordinator harness over all digraphs with self loops: a required file reaches a cycle <=> the run fails (never hangs, never '
+             'succeeds); files that cannot reach a cycle are final exactly once in that run; acyclic projects never fail. Lemma on the real '
+             'code: a self-including file reports itself as dependency.',
+        ref='DESIGN.md 5 (C05)', note='as C02', technique='symbolic execution of rustc MIR with a scheduler model (task completion order, dependency digraph and failures as fork points of the environment), native replay with forced timing'),
 }
 
 PENDING_REASON = 'check not built yet in this revision (under construction, see DESIGN.md 9); nothing is claimed'
